@@ -214,6 +214,49 @@ def task_aftersign(a, env):
     return r_
 
 
+def sweep_case(cfg, n):
+    """anchors (valid signatures made by the model) recovered again after n recoveries of pairwise
+    distinct other signatures / hashes"""
+    from .. import lib as _lib
+    S, m = L.get(cfg)
+
+    def mk(d, hb):
+        z = int.from_bytes(hb, "big")
+        k = ecdsa.nonce(hb, d.to_bytes(32, "big"))
+        sg = m.sign_with_k(d, z, k)
+        return None if sg is None or sg[2] == 0 or sg[1] % m.n == 0 or sg[1] >= m.n else (hb, sg)
+
+    def call(x):
+        return _observe(S, x[0], *x[1])
+
+    def expect(x):
+        return _expected(m, None, x[1][0], x[1][1], x[1][2], int.from_bytes(x[0], "big"))
+
+    anchors = [t for t in (mk(1 + i, bytes([i + 1]) * 32) for i in range(6)) if t][:4]
+    distinct = (t for t in (mk(2 + j % (m.n - 2), (j + 1000).to_bytes(32, "big")) for j in range(4 * n)) if t)
+    return _lib.sweep(call, anchors, distinct, n, expect)
+
+
+def task_sweep(a, env):
+    r_ = R("anchors-again-after-n-distinct-recoveries")
+    for cfg in a["cfgs"]:
+        n = a["n"] if cfg != "full" else a["n_full"]
+        bad = sweep_case(cfg, n)
+        r_.ev += n + 4 * 20
+        r_.dk.add(str(cfg))
+        if bad:
+            r_.viol("C19:%s:stale-after-many-distinct" % ("full" if cfg == "full" else "tiny"), ME + ":replay_sweep",
+                    {"cfg": cfg, "n": bad[0]}, bad[2], bad[3], note="anchor %d after %d distinct recoveries" % (bad[1], bad[0]))
+    r_.transitions = r_.ev
+    r_.sample({"history": "recover(a0..a3); recover(d1); recover(a0..a3); recover(d2); ..."})
+    return r_
+
+
+def replay_sweep(a):
+    bad = sweep_case(a["cfg"], a["n"])
+    return None if not bad else {"after": bad[0], "anchor": bad[1], "expected": bad[2], "observed": bad[3]}
+
+
 def replay_aftersign(a):
     for (lbl, exp, got) in aftersign_case(a["cfg"], int(a["d"], 16), a["h"]):
         if exp != got:
@@ -261,4 +304,6 @@ def run(ctx):
             tasks.append(("full", {"v": v, "lo": lo, "step": step}))
     tasks.append(("aftersign", {"cfgs": ["full", list(curves[0]), list(curves[2])], "ds": [1, 5, 9],
                                 "hs": [("%02x" % b) * 32 for b in (1, 0x35, 0xff)]}))
+    tasks.append(("sweep", {"cfgs": ["full"], "n": 0, "n_full": 150 if ctx.quick else 1100}))
+    tasks.append(("sweep", {"cfgs": [list(curves[0]), list(curves[2])], "n": 1100 if ctx.quick else 5000, "n_full": 0}))
     ctx.pmap(ME, tasks)
